@@ -139,3 +139,7 @@ Definition rl_hist (bin_of : Z -> nat) (nbins : nat) (r : rla Z) : list Z :=
   map (fun b => zsum (map2 (fun l v => if Nat.eqb (bin_of v) b then l else 0) (diffs (fst r)) (snd r))) (seq 0 nbins).
 Definition dense_hist (bin_of : Z -> nat) (nbins : nat) (d : list Z) : list Z :=
   map (fun b => zsum (map (fun v => if Nat.eqb (bin_of v) b then 1 else 0) d)) (seq 0 nbins).
+
+(* rla[list] / rla[int array] and rla[boolean array] (runlengtharray.py __getitem__: a boolean array becomes flatnonzero) *)
+Definition get_positions {A} (r : rla A) (idx : list Z) : res (list A) := rsequence (map (get_position A r) idx).
+Definition get_bool_mask {A} (r : rla A) (m : list bool) : res (list A) := get_positions r (flatnonzero m).
